@@ -19,6 +19,9 @@ func (m *Message) SkipClassAdRaw(ctx context.Context) error {
 		return fmt.Errorf("failed to read expression count: %w", err)
 	}
 	for i := 0; i < numExprs; i++ {
+		if m.atEndOfMessage() {
+			return fmt.Errorf("ClassAd truncated: expected %d expressions, message ended after %d", numExprs, i)
+		}
 		isMarker, err := m.skipStringMatching(ctx, SecretMarker)
 		if err != nil {
 			return fmt.Errorf("failed to skip expression %d (expected %d): %w", i, numExprs, err)
